@@ -352,6 +352,7 @@ pub async fn run_cyc(
     let n = prog.nodes.len() as u32;
     let mut inputs: BTreeMap<u32, Val> = BTreeMap::new();
     let mut had_cycle_before = false;
+    let mut prev_values: BTreeMap<u32, Val> = BTreeMap::new();
     for (si, st) in case.steps.iter().enumerate() {
         match st {
             CStep::Session(ops) => {
@@ -441,12 +442,15 @@ pub async fn run_cyc(
                     graph.insert(y, r);
                 }
                 let mut last_index: BTreeMap<u32, usize> = BTreeMap::new();
+                // what the last invocation of each node observed / tried to read
+                let mut last_seen: BTreeMap<u32, (Vec<(u32, Val)>, Vec<u32>)> = BTreeMap::new();
                 let (last_status, unwound_now): (BTreeMap<u32, InvStatus>, usize) = {
                     let log = sh.log.lock();
                     let mut m = BTreeMap::new();
                     for inv in log.iter() {
                         m.insert(inv.node, inv.status);
                         last_index.insert(inv.node, inv.id);
+                        last_seen.insert(inv.node, (inv.reads.clone(), inv.attempted.clone()));
                     }
                     (m, log.iter().filter(|i| i.status == InvStatus::Unwound).count())
                 };
@@ -500,9 +504,23 @@ pub async fn run_cyc(
                             ));
                             return out;
                         }
+                        // exactly KF3's precondition: nothing the node
+                        // observed has a different value now, and a read that
+                        // was cut short by the cycle signal goes to a node
+                        // that reports the same value as in the round before
+                        // (a change there dirties the kept edge and the node
+                        // must run again)
+                        let nothing_it_saw_changed = last_seen.get(&y).is_some_and(|(reads, attempted)| {
+                            reads.iter().all(|(c, seen)| values.get(c) == Some(seen))
+                                && attempted
+                                    .iter()
+                                    .filter(|c| !reads.iter().any(|(r, _)| r == *c))
+                                    .all(|c| prev_values.get(c).is_some_and(|pv| values.get(c) == Some(pv)))
+                        });
                         if !case.strict
                             && !on_cycle(&graph, y)
                             && last_index.get(&y).is_some_and(|i| *i < log_len_at_round_start)
+                            && nothing_it_saw_changed
                         {
                             // known finding KF3: the default was assigned in an
                             // earlier round (when the node was on a cycle) and
@@ -528,6 +546,7 @@ pub async fn run_cyc(
                         }
                     }
                 }
+                prev_values = values.clone();
                 if let Some(c) = has_cycle_without(&graph, &a) {
                     out.violation = Some(format!(
                         "step {si}: node {c} lies on a cycle none of whose members evaluates to a cycle default (defaults: {a:?}, graph {graph:?})"
